@@ -117,6 +117,21 @@ theorem dense_all_extends_bool {op : String} (hp : plainOp op = true ∨ ApiDens
   · exact dstepArgsAll_plain hp D a
   · exact dstepArgsAll_bool hp D a
 
+/-- **the unified interpreter extends the earlier value-only ones**: forgetting the masks, a plain,
+    scalar or bit line is the line of `C13.reachable_dense_bits`'s interpreter
+    (`ApiDenseBits.dstepArgsB`, which on its plain / scalar lines is `ApiDense.dstepArgs` /
+    `ApiDenseScalar.dstepArgsS`), and `upg` / `fracdet` are the lines of D2's `dstepArgsM` — same
+    dense values, same answers.  (The boolean family, `mop` and `deg` have no value-only
+    counterpart: `C11.exNoCov`, section (3).) -/
+theorem dense_all_forget_values (D : DenseWorldC) {op : String} (a : Args) :
+    ((plainOp op = true ∨ ApiDenseScalar.famOp op = true ∨ ApiDenseBits.famOp op = true) →
+      (dstepArgsAll D op a).1.toDense = (ApiDenseBits.dstepArgsB D.toDense op a).1 ∧
+        (dstepArgsAll D op a).2 = (ApiDenseBits.dstepArgsB D.toDense op a).2) ∧
+    ((op = "upg" ∨ op = "fracdet") →
+      (dstepArgsAll D op a).1.toDense = (ApiDenseMulti.dstepArgsM D.toDense op a).1 ∧
+        (dstepArgsAll D op a).2 = (ApiDenseMulti.dstepArgsM D.toDense op a).2) :=
+  ⟨toDense_stepArgsAll D a, toDense_stepArgsAll_res D a⟩
+
 /-! ### (2) what the interpreter computes on the new lines
 
 Values: as in the family campaigns (`ApiDenseScalar.dSop` / `dMask` / `dAstype`,
@@ -289,6 +304,15 @@ def cexAll : List (List String) :=
   [C06.cexA "_", C06.cexA "0", C06.cexB "_", C06.cexB "0", C06.cexC "_", C06.cexC "0",
    C06.cexD "_", C06.cexD "1"]
 
+/-- **the eight counterexample histories are answered correctly**: each is a history of lines of
+    the multi-map family (the hypothesis `h`, evaluated by the first `#guard` below — the kernel
+    cannot run the string parser), so the protocol's world and answers are those of the
+    coverage-aware interpreter -/
+theorem cex_answered (ls : List String) (_ : ls ∈ cexAll)
+    (h : ∀ l ∈ ls, ApiDenseMulti.lineOk l = true) :
+    RelC (runLines ls) (drunAll ls) ∧ answers ls = danswersAll ls :=
+  reachable_dense_multi_unconditional ls h
+
 /-! every line of the eight is a line of the multi-map family, NONE of the eight satisfies D2's side
     condition, and on ALL of them the coverage-aware interpreter gives the protocol's answers -/
 #guard cexAll.all fun ls => ls.all ApiDenseMulti.lineOk
@@ -327,7 +351,8 @@ allocated but empty.  Scalar operators in place and copying; the observers; `mop
 and the intersection (masks 110100000000 / 010000000000); two maps whose combined coverage is empty
 (early return: `ok` although the sentinels clash — then, with `covpix=5` on both, the guard fires);
 `degrade(sum)` at the coverage order (coverage pixel 3 of `b`: the valid value 0), `degrade(prod)`
-of `a` at order 1, `degrade` below nothing (order 0 is the coverage order); `upgrade`; `fracdet`;
+of `a` at order 1; a map `e` at orders 1 / 3 degraded at its coverage order (the allocated, empty
+coverage pixel 7 gives 0) and BELOW it (re-housed: the empty coverage pixel is gone); `upgrade`; `fracdet`;
 `astype`; `apply_mask`; a wide mask with `bits` / `chk` / `sop … bits=`; boolean maps (`bop`, `inv`,
 `pack`) fed by `fracdet` / `mop` results; refused and malformed lines. -/
 
@@ -369,6 +394,14 @@ def exAll : List String := [
   "covmask ap",
   "deg a ord=3 red=sum r=x",
   "deg a ord=1 red=wmean r=x",
+  "cfg e kind=plain dtype=i8 covord=1 spord=3 covpix=7",
+  "upd e pix=0,1,70 vals=4,6,8",
+  "deg e ord=1 red=sum r=ec",                            -- at the coverage order
+  "get ec pix=0,1,7,8",
+  "covmask ec",
+  "deg e ord=0 red=sum r=eb",                            -- below it: re-housed first
+  "vals eb",
+  "covmask eb",
   "upg a ord=3 r=au",
   "covmask au",
   "get au pix=12,15,80,83,84,0",
@@ -422,6 +455,26 @@ def exAll : List String := [
 
 #guard exAll.all lineOkAll
 #guard answers exAll == danswersAll exAll
+
+/-! … and the answers are the expected ones: the masks of the `mop` results; the early return
+    (`ok`, empty mask) against the guard (`inexact`); `sum` over an allocated, empty coverage
+    pixel (0) against `mean` (unset); the masks after `deg` at and below the coverage order; the
+    mask after a `clear` that changes nothing -/
+#guard ((answers exAll).drop 14).take 6 ==
+  ["ok", "110100000000", "2,10,14,6,20,-9223372036854775808", "ok", "010000000000",
+   "-9223372036854775808,-9223372036854775808,14,-9223372036854775808,-9223372036854775808"]
+#guard ((answers exAll).drop 23).take 4 == ["ok", "000000000000", "ok", "inexact"]
+#guard ((answers exAll).drop 27).take 5 ==
+  ["ok",
+   "-1637499999999999923489519697920,30,-1637499999999999923489519697920,0," ++
+     ",".intercalate (List.replicate 8 "-1637499999999999923489519697920"),
+   "010100000000", "ok",
+   "-1637499999999999923489519697920,15," ++
+     ",".intercalate (List.replicate 10 "-1637499999999999923489519697920")]
+#guard ((answers exAll).drop 37).take 8 ==
+  ["ok", "ok", "ok", "10,-1637499999999999923489519697920,0,-1637499999999999923489519697920",
+   "100010010000" ++ String.ofList (List.replicate 36 '0'), "ok",
+   "10,8," ++ ",".intercalate (List.replicate 10 "-1637499999999999923489519697920"), "110000000000"]
 
 end Dense
 end HS
